@@ -8,16 +8,23 @@
 // point or a concurrent HTTP reader can observe.  Rules (DESIGN.md §3 C10):
 //
 //	H1 playlist.m3u8, if present, parses as a complete media playlist (ref/m3u8ref)
-//	H2 its media sequence never decreases while the file continuously exists
+//	H2 its media sequence never decreases while the file continuously exists, and the
+//	   sequence numbers follow the order of production: listed segments appear in the
+//	   order in which they were created, without skipping one, and a segment keeps
+//	   its number from one playlist version to the next
 //	H3 target duration >= round(EXTINF) for every listed segment
 //	H4 every listed segment exists, is a whole number of 188-byte packets, begins
 //	   with PAT then PMT and — stream with video — its first video access unit is a
-//	   key frame unless the entry carries EXT-X-DISCONTINUITY (ref/tsref)
+//	   key frame unless the entry carries EXT-X-DISCONTINUITY AND the published
+//	   frames themselves show a timestamp discontinuity there (judged from the case,
+//	   not from lal's tag: a frame more than 10 x fragment_duration after, or more
+//	   than 1000 ms before, an earlier frame since the previous segment start)
 //	H5 every segment listed in the current or any of the previous delete_threshold
 //	   playlist versions still exists
-//	H6 (end of each incarnation) the segments in creation order, minus their
-//	   PAT/PMT heads, equal the TS packet stream produced since the first segment
-//	   was opened (simultaneous TS recording) — each packet once, in order
+//	H6 (end of each incarnation) the segments in sequence order (= creation order,
+//	   see H2; every segment must have been listed), minus their PAT/PMT heads,
+//	   equal the TS packet stream produced since the first segment was opened
+//	   (simultaneous TS recording) — each packet once, in order
 //	H7 after the publisher left the live playlist ends with EXT-X-ENDLIST and, for
 //	   cleanup modes 0/1, record.m3u8 lists every segment produced since the
 //	   directory was (re)created
@@ -71,14 +78,14 @@ type Inc struct {
 }
 
 type Case struct {
-	FragMs    int   `json:"fragment_duration_ms"`
-	FragNum   int   `json:"fragment_num"`
-	DelThr    int   `json:"delete_threshold"`
-	Cleanup   int   `json:"cleanup_mode"`
-	ChunkSize int   `json:"chunk_size"`
-	Incs      []Inc `json:"incs"`
-	GapMs     []int `json:"gap_ms,omitempty"` // real-time pause after incarnation i left (len = len(Incs)-1)
-	TailMs    int   `json:"tail_ms,omitempty"` // real-time pause after the last incarnation left
+	FragMs    int    `json:"fragment_duration_ms"`
+	FragNum   int    `json:"fragment_num"`
+	DelThr    int    `json:"delete_threshold"`
+	Cleanup   int    `json:"cleanup_mode"`
+	ChunkSize int    `json:"chunk_size"`
+	Incs      []Inc  `json:"incs"`
+	GapMs     []int  `json:"gap_ms,omitempty"`  // real-time pause after incarnation i left (len = len(Incs)-1)
+	TailMs    int    `json:"tail_ms,omitempty"` // real-time pause after the last incarnation left
 	Class     string `json:"class"`             // generator class (label only)
 }
 
@@ -88,12 +95,13 @@ func (c Case) cleanupDelayMs() int { return c.FragMs * (c.FragNum + c.DelThr) }
 // oracle state, driven by the file-system layer's callback
 
 type segAnalysis struct {
-	size          int
-	headOK        bool
-	headMsg       string
-	hasVideoFrame bool
-	firstVideoKey bool
-	demuxErr      string
+	size             int
+	headOK           bool
+	headMsg          string
+	hasVideoFrame    bool
+	firstVideoKey    bool
+	firstVideoSerial uint32 // serial of the first slice unit of the first video access unit (0: not decodable)
+	demuxErr         string
 }
 
 type version struct {
@@ -121,6 +129,11 @@ type oracle struct {
 	versions []version
 
 	segInc   map[*hlsfs.File]int
+	segIdx   map[*hlsfs.File]int   // creation index over the whole case
+	segK     map[*hlsfs.File]int   // creation index inside its incarnation
+	seqOf    map[*hlsfs.File]int64 // media sequence number under which the segment was listed
+	seqBase  map[int]int64         // per incarnation: sequence number minus creation index (must be constant)
+	tl       map[int]*timeline     // per incarnation: the published frames
 	incSegs  map[int][]*hlsfs.File
 	cut      map[int]int64 // size of the TS recording when the incarnation's first segment was created
 	analysis map[*hlsfs.File]*segAnalysis
@@ -176,6 +189,8 @@ func (o *oracle) onOp(st *hlsfs.State, op hlsfs.Op) {
 		if op.Err == "" && isSegment(op.Path) && filepath.Dir(op.Path) == o.dir {
 			f := st.Lookup(op.Path)
 			o.segInc[f] = o.curInc
+			o.segIdx[f] = len(o.segIdx)
+			o.segK[f] = len(o.incSegs[o.curInc])
 			if len(o.incSegs[o.curInc]) == 0 {
 				o.cut[o.curInc] = o.recordingSize()
 			}
@@ -191,6 +206,7 @@ func (o *oracle) onOp(st *hlsfs.State, op hlsfs.Op) {
 	if pf == nil {
 		// the playlist does not exist: the history of versions ends here
 		o.plGen, o.cur, o.versions = nil, nil, nil
+		o.seqBase = map[int]int64{}
 		return
 	}
 	if pf != o.plGen || len(pf.Data) != o.plLen {
@@ -213,7 +229,12 @@ func (o *oracle) onOp(st *hlsfs.State, op hlsfs.Op) {
 		o.cur = pl
 		// H2
 		if prev != nil && pl.MediaSequence < prev.MediaSequence {
-			if prevInc != o.curInc {
+			if prevInc != o.curInc && pl.MediaSequence != 0 {
+				// only the exact known finding is demoted: a successor's fresh muxer starting at 0 again
+				o.fail("H2/media-sequence-decreased-across-incarnations", "operation %d: EXT-X-MEDIA-SEQUENCE went from %d (written by incarnation %d) to %d (first playlist of incarnation %d) although playlist.m3u8 existed without interruption",
+					op.Index, prev.MediaSequence, prevInc, pl.MediaSequence, o.curInc)
+				return
+			} else if prevInc != o.curInc {
 				if o.known == nil {
 					o.known = pbt.V(sigSeqRestart, "operation %d: EXT-X-MEDIA-SEQUENCE went from %d (written by incarnation %d) to %d (incarnation %d) although playlist.m3u8 existed without interruption (cleanup_mode %d)",
 						op.Index, prev.MediaSequence, prevInc, pl.MediaSequence, o.curInc, o.c.Cleanup)
@@ -229,6 +250,40 @@ func (o *oracle) onOp(st *hlsfs.State, op hlsfs.Op) {
 				o.fail("H3/target-duration-below-rounded-extinf", "operation %d: EXT-X-TARGETDURATION:%d but segment %s has EXTINF:%s which rounds to %d (fragment_duration_ms %d)\n%s",
 					op.Index, pl.TargetDuration, sg.URI, sg.DurationText, sg.RoundedLow(), o.c.FragMs, clip(string(pf.Data), 800))
 				return
+			}
+		}
+		// H2/H6: sequence order = production order
+		lastIdx, lastURI := -1, ""
+		for _, sg := range pl.Segments {
+			f := st.Lookup(o.segPath(sg.URI))
+			if f == nil {
+				break // H4 below reports the missing file
+			}
+			idx, okIdx := o.segIdx[f]
+			if !okIdx {
+				continue
+			}
+			if idx <= lastIdx {
+				o.fail("H6/playlist-order-differs-from-production-order", "operation %d: playlist lists %s (created as segment %d of the case) after %s (segment %d)\n%s",
+					op.Index, sg.URI, idx, lastURI, lastIdx, clip(string(pf.Data), 800))
+				return
+			}
+			lastIdx, lastURI = idx, sg.URI
+			inc, k := o.segInc[f], o.segK[f]
+			if prevSeq, seen := o.seqOf[f]; seen && prevSeq != sg.Seq && inc == o.curInc {
+				o.fail("H2/segment-sequence-number-changed", "operation %d: %s was listed with media sequence number %d, now with %d\n%s", op.Index, sg.URI, prevSeq, sg.Seq, clip(string(pf.Data), 800))
+				return
+			}
+			o.seqOf[f] = sg.Seq
+			if inc == o.curInc {
+				base, okBase := o.seqBase[inc]
+				if !okBase {
+					o.seqBase[inc] = sg.Seq - int64(k)
+				} else if sg.Seq-int64(k) != base {
+					o.fail("H6/sequence-numbers-do-not-follow-production-order", "operation %d: %s is segment %d produced by incarnation %d and is listed with media sequence number %d; earlier listings imply number %d (a segment was skipped, repeated or renumbered)\n%s",
+						op.Index, sg.URI, k, inc, sg.Seq, base+int64(k), clip(string(pf.Data), 800))
+					return
+				}
 			}
 		}
 		o.versions = append(o.versions, version{uris: pl.URIs(), inc: o.curInc})
@@ -264,10 +319,18 @@ func (o *oracle) onOp(st *hlsfs.State, op hlsfs.Op) {
 			o.discontSegs[sg.URI] = true
 		}
 		inc, okInc := o.segInc[f]
-		if okInc && o.c.Incs[inc].Codecs.Video != "" && an.hasVideoFrame && !an.firstVideoKey && !sg.Discontinuity {
-			o.fail("H4/segment-starts-at-non-key-frame", "after operation %d: listed segment %s (sequence %d, no EXT-X-DISCONTINUITY) of a stream with video: its first video access unit holds no IDR/IRAP unit",
-				op.Index, sg.URI, sg.Seq)
-			return
+		if okInc && o.c.Incs[inc].Codecs.Video != "" && an.hasVideoFrame && !an.firstVideoKey {
+			if !sg.Discontinuity {
+				o.fail("H4/segment-starts-at-non-key-frame", "after operation %d: listed segment %s (sequence %d, no EXT-X-DISCONTINUITY) of a stream with video: its first video access unit holds no IDR/IRAP unit",
+					op.Index, sg.URI, sg.Seq)
+				return
+			}
+			// the tag is lal's own claim: the published frames must show the discontinuity
+			if why := o.unjustifiedNonKeyStart(inc, f); why != "" {
+				o.fail("H4/non-key-segment-start-without-timestamp-discontinuity", "after operation %d: listed segment %s (sequence %d) carries EXT-X-DISCONTINUITY and starts its video at a non-key frame, but %s",
+					op.Index, sg.URI, sg.Seq, why)
+				return
+			}
 		}
 	}
 	// H5 for the previous delete_threshold versions
@@ -335,16 +398,161 @@ func (o *oracle) analyse(f *hlsfs.File) *segAnalysis {
 			if len(n) == 0 {
 				continue
 			}
+			hdr, slice := 1, false
 			if es.StreamType == tsref.StreamTypeH264 {
-				if n[0]&0x1f == 5 {
+				t := n[0] & 0x1f
+				if t == 5 {
 					an.firstVideoKey = true
 				}
-			} else if t := int(n[0]>>1) & 0x3f; t >= 16 && t <= 23 {
-				an.firstVideoKey = true
+				slice = t >= 1 && t <= 5
+			} else {
+				hdr = 2
+				t := int(n[0]>>1) & 0x3f
+				if t >= 16 && t <= 23 {
+					an.firstVideoKey = true
+				}
+				slice = t <= 23
+			}
+			if slice && an.firstVideoSerial == 0 && len(n) >= hdr+4 {
+				// gen.NalSpec.Bytes: four base-251 digits, each stored +4
+				ser, mul, ok := uint32(0), uint32(1), true
+				for i := 0; i < 4; i++ {
+					b := n[hdr+i]
+					if b < 4 || b > 254 {
+						ok = false
+						break
+					}
+					ser += uint32(b-4) * mul
+					mul *= 251
+				}
+				if ok {
+					an.firstVideoSerial = ser
+				}
 			}
 		}
 	}
 	return an
+}
+
+// timeline is what the case says about the frames of one incarnation: for every
+// audio / video item its timestamp as published and as lal's TS remuxer rebases
+// it (each track on its own first timestamp; smaller timestamps stay as they are).
+type timeline struct {
+	media    []int   // item indices of audio / video frames in publish order
+	raw      []int64 // per media position
+	rebased  []int64
+	video    []bool
+	bySerial map[uint32]int // first-slice serial of a video frame -> media position
+}
+
+func buildTimeline(in Inc) *timeline {
+	t := &timeline{bySerial: map[uint32]int{}}
+	var baseV, baseA int64 = -1, -1
+	for i, it := range in.Items {
+		if it.Kind != "video" && it.Kind != "audio" {
+			continue
+		}
+		ts := int64(it.Ts)
+		r := ts
+		if it.Kind == "video" {
+			if baseV < 0 {
+				baseV = ts
+			}
+			if ts >= baseV {
+				r = ts - baseV
+			}
+			for _, n := range it.Nals {
+				if _, dup := t.bySerial[n.Serial]; !dup {
+					t.bySerial[n.Serial] = len(t.media)
+				}
+			}
+		} else {
+			if baseA < 0 {
+				baseA = ts
+			}
+			if ts >= baseA {
+				r = ts - baseA
+			}
+		}
+		t.media = append(t.media, i)
+		t.raw = append(t.raw, ts)
+		t.rebased = append(t.rebased, r)
+		t.video = append(t.video, it.Kind == "video")
+	}
+	return t
+}
+
+// discontinuityIn reports whether the frames at media positions [from, to] show
+// a timestamp discontinuity: a frame more than 10 x fragment_duration after,
+// or more than 1000 ms before, an earlier frame of the window — on the published
+// or on the rebased time line.
+func (t *timeline) discontinuityIn(from, to int, fragMs int) bool {
+	for _, line := range [][]int64{t.raw, t.rebased} {
+		lo, hi := line[from], line[from]
+		for p := from + 1; p <= to && p < len(line); p++ {
+			if line[p]-lo > 10*int64(fragMs) || hi-line[p] > 1000 {
+				return true
+			}
+			if line[p] < lo {
+				lo = line[p]
+			}
+			if line[p] > hi {
+				hi = line[p]
+			}
+		}
+	}
+	return false
+}
+
+// unjustifiedNonKeyStart judges, from the published frames alone, whether a
+// segment whose video starts at a non-key frame can have been opened by a
+// timestamp discontinuity.  The window runs from the last video frame published
+// before the first video frame of the third earlier segment that holds video
+// (the first frame of the incarnation when there are fewer) up to this segment's
+// first video frame.  "" = justified.
+func (o *oracle) unjustifiedNonKeyStart(inc int, f *hlsfs.File) string {
+	t := o.tl[inc]
+	if t == nil {
+		t = buildTimeline(o.c.Incs[inc])
+		o.tl[inc] = t
+	}
+	an := o.analyse(f)
+	to, ok := t.bySerial[an.firstVideoSerial]
+	if an.firstVideoSerial == 0 || !ok {
+		return "" // not attributable to a published frame: not judged
+	}
+	if o.segK[f] == 0 {
+		return "" // the first segment of an incarnation: the start of the stream is a discontinuity by itself
+	}
+	// Every open flushes lal's AAC cache, but a flushed batch carries the timestamp of its oldest frame, and the
+	// flush re-enters the muxer while a segment is being opened: the segment start that a frame is compared
+	// with can stem from a frame published during the segment before the (possibly empty) one that the outer
+	// frame opened.  The window therefore reaches back over three earlier segments that hold video.
+	from := 0
+	segs := o.incSegs[inc]
+	withVideo := 0
+	for k := o.segK[f] - 1; k >= 0 && k < len(segs); k-- {
+		pa := o.analyse(segs[k])
+		if pos, ok := t.bySerial[pa.firstVideoSerial]; pa.hasVideoFrame && pa.firstVideoSerial != 0 && ok {
+			withVideo++
+			if withVideo < 3 {
+				continue
+			}
+			from = pos - 1
+			for from >= 0 && !t.video[from] {
+				from--
+			}
+			if from < 0 {
+				from = 0
+			}
+			break
+		}
+	}
+	if t.discontinuityIn(from, to, o.c.FragMs) {
+		return ""
+	}
+	return fmt.Sprintf("the frames published from item %d to item %d of incarnation %d (timestamps %d .. %d ms) contain no frame more than %d ms after or more than 1000 ms before an earlier one",
+		t.media[from], t.media[to], inc, t.raw[from], t.raw[to], 10*o.c.FragMs)
 }
 
 func clip(s string, n int) string {
@@ -430,6 +638,10 @@ func (o *oracle) endOfIncarnation(st *hlsfs.State, inc int, leaveStart int, reco
 	want := recording[cut:]
 	var got []byte
 	for i, f := range segs {
+		if _, listed := o.seqOf[f]; !listed {
+			o.fail("H6/segment-never-listed", "segment %d of incarnation %d (%s, %d bytes) never appeared in playlist.m3u8: its packets are missing from the segments in sequence order", i, inc, filepath.Base(f.Path), len(f.Data))
+			return
+		}
 		if len(f.Data) < 2*pktSize {
 			o.fail("H6/segment-shorter-than-its-head", "segment %d of incarnation %d (%s) holds %d bytes", i, inc, filepath.Base(f.Path), len(f.Data))
 			return
@@ -463,7 +675,8 @@ func run(c Case) *pbt.Violation {
 	}
 	root := filepath.Join(s.Dir, "hls")
 	o := &oracle{c: c, dir: filepath.Join(root, streamName), tsDir: tsDir, lastDirRemoval: -1,
-		segInc: map[*hlsfs.File]int{}, incSegs: map[int][]*hlsfs.File{}, cut: map[int]int64{}, analysis: map[*hlsfs.File]*segAnalysis{}, discontSegs: map[string]bool{}}
+		segInc: map[*hlsfs.File]int{}, segIdx: map[*hlsfs.File]int{}, segK: map[*hlsfs.File]int{}, seqOf: map[*hlsfs.File]int64{}, seqBase: map[int]int64{}, tl: map[int]*timeline{},
+		incSegs: map[int][]*hlsfs.File{}, cut: map[int]int64{}, analysis: map[*hlsfs.File]*segAnalysis{}, discontSegs: map[string]bool{}}
 	o.playlist = filepath.Join(o.dir, "playlist.m3u8")
 	o.record = filepath.Join(o.dir, "record.m3u8")
 	layer := hlsfs.New(root, nil, o.onOp)
@@ -567,9 +780,25 @@ func run(c Case) *pbt.Violation {
 	return known
 }
 
+// onlyLabel is a diagnostic aid (never set by the driver): C10_ONLY_LABEL=<label> restricts the search to
+// cases that carry the label, e.g. to ask whether one generator shape alone exposes a seeded change.
+func onlyLabel(c Case) string {
+	want := os.Getenv("C10_ONLY_LABEL")
+	if want == "" {
+		return ""
+	}
+	_, labels := classify(c)
+	for _, l := range labels {
+		if l == want {
+			return ""
+		}
+	}
+	return "diagnostic: label " + want + " absent"
+}
+
 func TestHlsConsistency(t *testing.T) {
 	pbt.Run(t, pbt.Spec[Case]{
-		ID: "C10", Name: "hls-consistency", Gen: genCase, Run: run, Classify: classify, Exclude: excludeKnown,
-		Quick: 450, Thorough: 3000, Isolate: true,
+		ID: "C10", Name: "hls-consistency", Gen: genCase, Run: run, Classify: classify, Exclude: onlyLabel,
+		Quick: 300, Thorough: 3000, Isolate: true,
 	})
 }
